@@ -6,6 +6,7 @@ package main
 // assigned", so the model ignores it): w = an attempt whose watermark query failed, c = an attempt whose Committed query
 // failed, a = an attempt whose Assign failed, o = a successful assignment; a trailing r = followed by a revocation.
 // Earlier attempts see other committed offsets and watermarks and skip nothing (so they file no request).
+// g: a snapshot of another instance's request for the upper part of the range the judged call skips is already tracked
 // retry / xretry: the judged assignment arrives as a rebalance event; its first attempt cannot read the committed offsets,
 // so the source has to retry (3 s later) — with xretry after a revocation during which Unassign failed.
 
@@ -51,18 +52,20 @@ func b01(b bool) string {
 func genOffsets(r *rng, n int, tier string, emit func(string)) {
 	// directed prefix: every model branch that matters, independent of luck
 	for _, c := range []string{
-		"5 1 100 0 0 ; 0 10 0 15 0",                                   // lag == max: normal
-		"5 1 100 0 0 ; 0 10 0 16 0",                                   // lag == max+1: capped, request [10,11)
-		"5 1 3 0 0 ; 0 10 0 30 0",                                     // trimmed request
-		"5 0 100 0 0 ; 0 10 0 30 0",                                   // recovery disabled
-		"5 1 100 0 0 ; 0 a 0 30 0 ; 1 -1001 0 30 0",                   // absent / invalid
-		"5 1 100 1 0 ; 0 10 0 30 0",                                   // committed query fails
-		"5 1 100 0 0 ; 0 10 0 30 0 ; 1 10 0 30 1",                     // watermark query fails on second partition
-		"5 1 100 0 1 ; 0 10 0 30 0",                                   // assign fails
-		"0 1 100 0 0 ; 0 30 0 30 0 ; 1 29 0 30 0",                     // maxLag 0
-		"9223372036854775807 1 100 0 0 ; 0 0 0 4611686018427387904 0", // default maxLag
+		"5 1 100 0 0 ; 0 10 0 15 0",                                     // lag == max: normal
+		"5 1 100 0 0 ; 0 10 0 16 0",                                     // lag == max+1: capped, request [10,11)
+		"5 1 1000 0 0 ; 0 10 0 60 0 ; 1 20 0 90 0 ; 2 0 0 40 0",         // three partitions (the committed reply may come in any order)
+		"5 1 4611686018427387904 0 0 ; 0 10 0 60 0 ; 1 20 0 90 0 ; @ g", // a foreign request for the upper half of the skipped range is already tracked
+		"5 1 3 0 0 ; 0 10 0 30 0",                                       // trimmed request
+		"5 0 100 0 0 ; 0 10 0 30 0",                                     // recovery disabled
+		"5 1 100 0 0 ; 0 a 0 30 0 ; 1 -1001 0 30 0",                     // absent / invalid
+		"5 1 100 1 0 ; 0 10 0 30 0",                                     // committed query fails
+		"5 1 100 0 0 ; 0 10 0 30 0 ; 1 10 0 30 1",                       // watermark query fails on second partition
+		"5 1 100 0 1 ; 0 10 0 30 0",                                     // assign fails
+		"0 1 100 0 0 ; 0 30 0 30 0 ; 1 29 0 30 0",                       // maxLag 0
+		"9223372036854775807 1 100 0 0 ; 0 0 0 4611686018427387904 0",   // default maxLag
 		"5 1 1 0 0 ; 0 4611686018427387900 0 4611686018427387904 0",
-		"5 1 100 0 0 ;",                                              // no partitions
+		"5 1 100 0 0 ;", // no partitions
 		"5 1 9223372036854775807 0 0 ; 0 10 0 4611686018427387904 0", // unlimited maxrecords
 		"5 1 9223372036854775800 0 0 ; 0 0 0 100 0 ; 1 50 0 100 0",
 		"5 1 100 0 0 ; 0 10 0 30 0 ; 1 4 0 5 0 ; @ retry", // the first attempt of the rebalance cannot read the committed offsets
@@ -133,7 +136,7 @@ func genOffsets(r *rng, n int, tier string, emit func(string)) {
 		if r.chance(30) && np > 0 {
 			h := r.pickS("w", "wr", "wr", "c", "cr", "ar", "or", "or", "o")
 			if maxRec >= 1<<62 && !cerr && !anyWerr && r.chance(40) { // (a judged call that stops early files less than the earlier one)
-				h = r.pickS("f", "fr")
+				h = r.pickS("f", "fr", "g")
 			}
 			parts = append(parts, "@ "+h)
 		}
@@ -153,6 +156,7 @@ func execOffsets(input string) string {
 	sc := newScriptedConsumer()
 	sc.committedErr = hd[3] == "1"
 	sc.assignErr = hd[4] == "1"
+	sc.committedRev = len(input)%3 == 1
 	topic := "t"
 	var tps []kafka.TopicPartition
 	history := ""
@@ -208,7 +212,7 @@ func execOffsets(input string) string {
 		}
 	}
 	kc := kafkaconsumer.VerifNewKafkaConsumer(sc, topic, sendCh, int(maxLag), m, rc, ctx)
-	if history != "" && !strings.HasSuffix(history, "retry") && len(tps) > 0 {
+	if history != "" && history != "g" && !strings.HasSuffix(history, "retry") && len(tps) > 0 {
 		// an earlier attempt on the same consumer, against a client in another state; it skips nothing
 		saved := *sc
 		sc.committed, sc.low, sc.high, sc.wmErr = map[int32]int64{}, map[int32]int64{}, map[int32]int64{}, map[int32]bool{}
@@ -251,6 +255,22 @@ func execOffsets(input string) string {
 		ctx.sent = nil
 		if rc != nil {
 			rc.SetAssignedPartitions([]kafka.TopicPartition{{Topic: &topic, Partition: 999}})
+		}
+	}
+	if history == "g" && rc != nil {
+		// another instance has been working on part of what the judged call is about to skip: its request (later from, same to)
+		// arrived as a snapshot; the judged call's request must widen it down to the committed offset
+		for _, tp := range tps {
+			c, ok := sc.committed[tp.Partition]
+			high := sc.high[tp.Partition]
+			if !ok || c < 0 || maxLag < 0 || maxLag > high || high-c <= maxLag {
+				continue
+			}
+			to := high - maxLag
+			from := c + (to-c)/2 + 1
+			if from < to {
+				rc.VerifTracker().VerifReceive(strconv.Itoa(int(tp.Partition)), encodeReqs(tp.Partition, fmt.Sprintf("%d:%d", from, to)))
+			}
 		}
 	}
 	var err error
